@@ -68,7 +68,9 @@ type rw struct {
 	logDir   string
 	st       *Stage
 	lg       *log.FileIO
-	consumed []string // "relpath md5" of files taken out of the final directory, in order
+	consumed []string          // "relpath md5" of files taken out of the final directory, in order
+	keep     bool              // delivered files stay in the final directory (no consumer)
+	seen     map[string]string // keep mode: what was there at the last look
 }
 
 func newRW(root string) *rw {
@@ -173,6 +175,18 @@ func (w *rw) consume() []string {
 	var got []string
 	for _, e := range vh.List(w.finalDir) {
 		if e.Dir {
+			continue
+		}
+		if w.keep {
+			// nobody takes delivered files away: an arrival is a file that is new or has new content
+			if w.seen == nil {
+				w.seen = map[string]string{}
+			}
+			if w.seen[e.Path] == e.MD5 {
+				continue
+			}
+			w.seen[e.Path] = e.MD5
+			got = append(got, e.Path+" "+e.MD5)
 			continue
 		}
 		got = append(got, e.Path+" "+e.MD5)
